@@ -58,7 +58,15 @@ type Case struct {
 	NonTrivial bool
 	NoModel    bool // oracle-only case (no model counterpart)
 	Corpus     string
+	// two-phase cases: Prep is first executed by the worker (real code); Finish turns its
+	// answer into the command both sides then run (e.g. the AST dump of the case's templates).
+	Prep   *sx.Sexp
+	Finish func(prepResult *sx.Sexp) *sx.Sexp
 }
+
+// ModelNormalizers rewrite a model observation before comparison (by command head), e.g. to
+// render float placeholders with the implementation's own formatter.
+var ModelNormalizers = map[string]func(*sx.Sexp) *sx.Sexp{}
 
 type ImplFunc func(cmd, meta *sx.Sexp) (obs *sx.Sexp, oracleFail string)
 
@@ -311,6 +319,7 @@ type Issue struct {
 	Meta   string `json:"meta,omitempty"`
 	Impl   string `json:"impl"`
 	Model  string `json:"model,omitempty"`
+	ModelRaw string `json:"model_raw,omitempty"`
 	Oracle string `json:"oracle,omitempty"`
 	Corpus string `json:"corpus,omitempty"`
 }
@@ -321,6 +330,7 @@ type StreamStat struct {
 	NonTrivial   int            `json:"distinct_nontrivial"`
 	ModelCases   int            `json:"model_cases"`
 	Unsupported  int            `json:"unsupported"`
+	UnsupportedWhy map[string]int `json:"unsupported_why,omitempty"`
 	Agreements   int            `json:"agreements"`
 	OracleChecks int            `json:"oracle_checked"`
 	Tags         map[string]int `json:"tags"`
@@ -386,8 +396,35 @@ func Run(pid, tier string, seed uint64, driver, outPath, corpusDir string, only 
 		cases[i].ID = i
 	}
 	res := &Result{Property: pid, Seed: seed, Tier: tier, Streams: map[string]*StreamStat{}, Issues: []Issue{}}
-	impl, restarts := runImpl(cases, 20*time.Second)
-	res.Restarts = restarts
+	// phase 1: preparation commands (real code) for two-phase cases
+	var prepIdx []int
+	var prepCases []Case
+	for i := range cases {
+		if cases[i].Prep != nil && cases[i].Cmd == nil {
+			prepIdx = append(prepIdx, i)
+			prepCases = append(prepCases, Case{ID: len(prepCases), Cmd: cases[i].Prep, Meta: cases[i].Meta})
+		}
+	}
+	prepFailed := map[int]string{}
+	if len(prepCases) > 0 {
+		pres, prs := runImpl(prepCases, 20*time.Second)
+		res.Restarts += prs
+		for k, i := range prepIdx {
+			x, err := sx.Parse(pres[k].obs)
+			if err != nil || strings.HasPrefix(pres[k].obs, "(crash") || strings.HasPrefix(pres[k].obs, "(hang") {
+				prepFailed[i] = pres[k].obs
+				cases[i].Cmd = sx.L(sx.A("prep-failed"), cases[i].Prep)
+				cases[i].NoModel = true
+				continue
+			}
+			cases[i].Cmd = cases[i].Finish(x)
+		}
+	}
+	impl, restarts := runImpl(cases, 6*time.Second)
+	for i, why := range prepFailed {
+		impl[i] = implRes{obs: why, fail: "the implementation crashed or hung while preparing (parsing) the case"}
+	}
+	res.Restarts += restarts
 	model, merr := runModel(cases, driver)
 	if merr != nil {
 		res.Error = merr.Error()
@@ -431,9 +468,26 @@ func Run(pid, tier string, seed uint64, driver, outPath, corpusDir string, only 
 			if !ok {
 				m = "(no-model-output)"
 			}
+			iss.ModelRaw = clip(m, 400)
+			if nf := ModelNormalizers[headOf(c.Cmd)]; nf != nil {
+				if mx, err := sx.Parse(m); err == nil {
+					m = nf(mx).String()
+				}
+			}
 			iss.Model = m
 			if strings.HasPrefix(m, "(unsupported") {
 				st.Unsupported++
+				if st.UnsupportedWhy == nil {
+					st.UnsupportedWhy = map[string]int{}
+				}
+				st.UnsupportedWhy[clip(m, 60)]++
+				bothDiverge := strings.HasPrefix(m, "(unsupported fuel") && (impl[i].obs == "(hang)" || impl[i].obs == "(crash process-died)")
+				if !bothDiverge && (impl[i].obs == "(hang)" || strings.HasPrefix(impl[i].obs, "(crash")) {
+					x := iss
+					x.Kind = "impl-" + classOf(impl[i].obs)
+					x.Model = m
+					res.Issues = append(res.Issues, x)
+				}
 			} else if m == impl[i].obs {
 				st.Agreements++
 			} else {
